@@ -355,12 +355,16 @@ Fixpoint check_steps (prop : N) (keys : list N) (i : N) (w : world) (fake : list
                 | TSetVersion v a => mkW (with_cs (set_version (w_st w) v) (cs_of_obs a)) (w_hold w)
                 | _ => match wop_of s with Some (blk, o) => wstep w blk o | None => w end
                 end in
-      if negb (Bool.eqb hm ho) then (if owns_acceptance prop s then [(i, 49)] else [])
-           (* whether a call is admitted is the business of the property that speaks about that call; for the others the
-              rest of this history is not comparable any more and is dropped *)
-      else if negb (corr_state (w_st w') post) then [(i, 50)]
-      else if (prop =? 11) && negb (corr_hold w' post) then [(i, 52)]
-      else if ho && negb (list_eqb msg_eqb mm mo) then [(i, 51)]
+      (* after a disagreement the run goes on from what the implementation shows (channel table and holdings read back
+         from the observation), so that a concrete clause failing later in the same history is still found *)
+      let resync := mkW (with_cs (w_st w') (cs_of_obs post))
+                        (fold_right (fun e m => set ordN m (fst e) (snd e)) [] (ob_hold post)) in
+      if negb (Bool.eqb hm ho)
+      then (if owns_acceptance prop s then [(i, 49)] else []) ++ check_steps prop keys (i + 1) resync fake' g' post r
+           (* whether a call is admitted is the business of the property that speaks about that call *)
+      else if negb (corr_state (w_st w') post) then (i, 50) :: check_steps prop keys (i + 1) resync fake' g' post r
+      else if (prop =? 11) && negb (corr_hold w' post) then (i, 52) :: check_steps prop keys (i + 1) resync fake' g' post r
+      else if ho && negb (list_eqb msg_eqb mm mo) then (i, 51) :: check_steps prop keys (i + 1) w' fake' g' post r
       else check_steps prop keys (i + 1) w' fake' g' post r
   end.
 
@@ -380,7 +384,7 @@ Fixpoint check_traces (prop : N) (i : N) (ts : list trace) : list (N * N) :=
   match ts with
   | [] => []
   | t :: r =>
-      match check_trace prop t with
+      match prefer_clause (check_trace prop t) with
       | [] => check_traces prop (i + 1) r
       | (s, c) :: _ => (i, s * 1000 + c) :: check_traces prop (i + 1) r
       end
